@@ -328,6 +328,12 @@ func TestDirectivePins(t *testing.T) {
 			wantInOut: []string{"(KTAG, [KDescription; KPaste])"}},
 		{name: "keyword/spelling-is-followed", file: "directive/enumeration.go", old: `"BaseUrl",`, new: `"BaseURL",`,
 			wantInOut: []string{`| KBaseURL => bs "BaseURL"`}},
+		{name: "adders/dropped-entry-is-followed", file: "core/core.go", old: "\t\tdirective.Tags:             core.addTags,\n", new: "",
+			wantInOut: []string{"KParams; KResult]."}},
+		{name: "adders/element-assignment-refused", file: "core/core.go", old: "\tcore.directiveFunctions = map[", new: "\tdefer func() { core.directiveFunctions[directive.Path] = core.addTags }()\n\tcore.directiveFunctions = map[",
+			wantFail: []string{"directiveFunctions is written outside its initialiser"}},
+		{name: "adders/delete-refused", file: "core/core.go", old: "\tcore.directiveFunctions = map[", new: "\tdefer func() { delete(core.directiveFunctions, directive.Tags) }()\n\tcore.directiveFunctions = map[",
+			wantFail: []string{"directiveFunctions is handed to a call"}},
 		{name: "root-context/set-is-followed", file: "directive/enumeration.go", old: "Macro, Paste, TAG:", new: "Macro, Paste:",
 			wantInOut: []string{"KMacro; KPaste]."}},
 	})
